@@ -140,7 +140,8 @@ CLAIMED.update({
                 "partitions the members into needles / case-insensitive needles / regex sets / rest; ci_is_ascii_folding and "
                 "i_prefix_is_case_insensitive the case rules (fix D12); aho_search_spec / slow_aho_spec the meaning of the automaton "
                 "forms. All needles over {a,b,A} to length 2-3 in six surface forms x haystacks to length 3-5, mixed lists and long "
-                "overlapping / multi-byte strings are run on the crate against an independent Python reference.",
+                "overlapping / multi-byte strings are run on the crate against an independent Python reference; the lists also "
+                "written as separate entries / identifiers and optimised by default (the optimiser's batching into automata and regex sets).",
         "note": TB + "aho-corasick itself is modelled by its meaning (all occurrences of all needles, ASCII case folding); regexes are an oracle on both sides.",
         "technique": "Coq proof (case analysis of the pattern syntax; invariant over the list partition) + exhaustive small-alphabet differential sweep",
     },
